@@ -45,6 +45,8 @@ inductive Loop (σ ρ : Type)
 structure Err where
   fn : String            -- "package.function" that created the value
   site : Nat             -- k-th `fmt.Errorf` / `errors.New` call of that function, in source order
+  ints : List Int        -- the integer arguments of that call (line numbers), for the functions where they are
+                         -- observable behaviour; `[]` elsewhere
 deriving DecidableEq, Repr
 
 /-! ## indexing, slicing -/
@@ -189,6 +191,41 @@ def splitByte (c : UInt8) : List UInt8 → List UInt8 → List (List UInt8)
   | acc, x :: xs => if x = c then acc.reverse :: splitByte c [] xs else splitByte c (x :: acc) xs
 
 def strings_Split1 (s : List UInt8) (c : UInt8) : List (List UInt8) := splitByte c [] s
+
+/-! ## io.LimitReader, bufio.Scanner (default split function ScanLines, default buffer)
+
+A source of bytes (`io.Reader`) is the byte string it delivers before a clean
+end; read errors of the source are not modelled. `bufio.Scanner`, transcribed:
+tokens are the `\n`-terminated lines without the terminator and without ONE
+trailing `\r`; a final unterminated non-empty remainder is a token; a raw line of
+`maxScanTokenSize` bytes or more does not fit the buffer: scanning stops there
+and `Err()` is non-nil afterwards. -/
+
+def io_LimitReader (src : List UInt8) (n : Int) : List UInt8 := src.take n.toNat
+
+def maxScanTokenSize : Nat := 65536
+
+/-- raw lines; `cur` = the current line so far, most recent byte first -/
+def rawLinesAux : List UInt8 → List UInt8 → List (List UInt8)
+  | cur, [] => if cur = [] then [] else [cur.reverse]
+  | cur, c :: cs => if c = 10 then cur.reverse :: rawLinesAux [] cs else rawLinesAux (c :: cur) cs
+
+def dropCR (l : List UInt8) : List UInt8 := if l.getLast? = some 13 then l.dropLast else l
+
+def tokensFrom : List (List UInt8) → List (List UInt8)
+  | [] => []
+  | r :: rs => if maxScanTokenSize ≤ r.length then [] else dropCR r :: tokensFrom rs
+
+def tooLongIn : List (List UInt8) → Bool
+  | [] => false
+  | r :: rs => if maxScanTokenSize ≤ r.length then true else tooLongIn rs
+
+/-- the tokens `for scanner.Scan() { … scanner.Text() … }` sees -/
+def scanner_Tokens (input : List UInt8) : List (List UInt8) := tokensFrom (rawLinesAux [] input)
+
+/-- `scanner.Err()` after the loop: `bufio.ErrTooLong` or nil -/
+def scanner_Err (input : List UInt8) : Option Err :=
+  if tooLongIn (rawLinesAux [] input) then some ⟨"bufio.Scanner", 0, []⟩ else none
 
 end Go
 end AgeModel
